@@ -12,6 +12,8 @@ CONSTANTS
   HostSets = {{"h1"}, {"h1", "h2"}}
   Attrs = {"a1"}
   LocLists = {"L2"}
+  CModes = {"inline"}
+  RModes = {"inline"}
   Defects = {}
 SPECIFICATION Spec
 INVARIANTS Coherent LastUpdateWins RemovedGone EndpointsUnion ErrorsChangeNothing FrameCondition EmitCase
